@@ -35,8 +35,9 @@ def _unwrap(e):
 
 
 class ElemExec:
-    def __init__(self, tu, where="", consts: dict | None = None, max_inline=3, null_pointers=(), nonnull_pointers=(), opaque=()):
-        self.opaque = set(opaque)  # callees kept as uninterpreted functions of their scalar arguments
+    def __init__(self, tu, where="", consts: dict | None = None, max_inline=3, null_pointers=(), nonnull_pointers=(), opaque=(), opaque_out: dict | None = None):
+        self.opaque = set(opaque)  # callees kept as uninterpreted functions of their arguments
+        self.opaque_out = dict(opaque_out or {})  # void callees that fill an array: name -> position of that array
         self.null_pointers = set(null_pointers)  # pointer parameters assumed NULL: `if (p)` takes the else arm
         self.nonnull_pointers = set(nonnull_pointers)
         self.tu = tu
@@ -223,7 +224,7 @@ class State:
             if nm == "pow" and len(args) == 2:
                 return self.expr(args[0]) ** self.expr(args[1])
             if nm in self.ex.opaque:
-                return sp.Function(nm)(*[self.expr(a) for a in args])
+                return sp.Function(nm)(*[self.opaque_arg(a) for a in args])
             if nm in self.ex.tu.functions and self.depth < self.ex.max_inline:
                 callee = self.ex.tu.functions[nm]
                 sc, al, shared = {}, {}, {}
@@ -247,6 +248,27 @@ class State:
                 return sub.ret
             raise AnalysisError(f"{self.ex.where}::{self.fname}: call of '{nm}' has no symbolic meaning")
         raise AnalysisError(f"{self.ex.where}::{self.fname}: expression kind {k}: {cast.text(e)}")
+
+    def opaque_arg(self, a):
+        """argument of an uninterpreted callee: scalars by value, arrays the caller filled as the tuple of their cells
+        (row-major over the declared extents), other arrays by name"""
+        ua = _unwrap(a)
+        if ua.get("kind") == "CharacterLiteral":
+            return sp.Integer(ua.get("value", 0))
+        if ua.get("kind") == "DeclRefExpr":
+            qt = cast.qtype(ua)
+            nm = ua["referencedDecl"]["name"]
+            if "[" in qt or "*" in qt:
+                if nm in self.cells and nm not in self.alias:
+                    import itertools
+                    import re as _re
+
+                    dims = [int(x) for x in _re.findall(r"\[(\d+)\]", qt)]
+                    if not dims:
+                        raise AnalysisError(f"{self.ex.where}::{self.fname}: array argument '{nm}' of unknown extent")
+                    return sp.Tuple(*[self.read_cell(nm, tuple(sp.Integer(i) for i in ix)) for ix in itertools.product(*[range(d) for d in dims])])
+                return sp.Symbol(self.alias.get(nm, nm))
+        return self.expr(a)
 
     # -- statements ---------------------------------------------------------
     def guard_factor(self, since=0):
@@ -448,6 +470,29 @@ class State:
             if k == "CallExpr":
                 nm = cast.callee_name(s)
                 if nm in ("free", "printf", "fprintf"):
+                    continue
+                if nm in self.ex.opaque_out:
+                    # a void callee that fills one array from the others: cell r of that array is an uninterpreted
+                    # function of r and of the remaining arguments
+                    import itertools
+                    import re as _re
+
+                    args = ks[1:]
+                    pos = self.ex.opaque_out[nm]
+                    out = _unwrap(args[pos])
+                    if out.get("kind") != "DeclRefExpr":
+                        raise AnalysisError(f"{self.ex.where}::{self.fname}: output argument of {nm} is not a plain array")
+                    onm = out["referencedDecl"]["name"]
+                    dims = [int(x) for x in _re.findall(r"\[(\d+)\]", cast.qtype(out))]
+                    if not dims or onm in self.alias:
+                        raise AnalysisError(f"{self.ex.where}::{self.fname}: output array '{onm}' of {nm} has no local fixed extent")
+                    ins = [self.opaque_arg(a) for p_, a in enumerate(args) if p_ != pos]
+                    for ix in itertools.product(*[range(d) for d in dims]):
+                        idx = tuple(sp.Integer(i) for i in ix)
+                        pats = self.cells.setdefault(onm, [])
+                        pats[:] = [c for c in pats if tuple(c[0]) != idx]
+                        pats.append((idx, (), sp.Function(nm)(*idx, *ins)))
+                    self.local_arrays.add(onm)
                     continue
                 raise AnalysisError(f"{self.ex.where}::{self.fname}: statement call of '{nm}' is not modelled")
             raise AnalysisError(f"{self.ex.where}::{self.fname}: statement kind {k} is outside the modelled fragment: {cast.text(s)[:60]}")
